@@ -210,6 +210,7 @@ static void checkParse(const unsigned char *s, const unsigned n)
     vf_quiet();
     const Ref r = reference(s, n);
     known.set = false;
+    bool dayExists = true;
     if (r.denotes) {
         bool leap;
         Civil c = r.c; c.year = 100 * r.C + r.yy;
@@ -217,7 +218,10 @@ static void checkParse(const unsigned char *s, const unsigned n)
         // KNOWN-FINDING candidate: a day of month that the month does not have ("Tue, 31 Feb 2021 ...", "29 Feb" of a common year) is
         // accepted (tmSaneValues() only checks 1..31) and timegm() normalises it into the next month, so Squid returns a time for a
         // string that denotes none. Excluded.
-        vf_assume(c.mday <= monthLen[c.mon] + ((c.mon == 1 && leap) ? 1 : 0));
+        dayExists = c.mday <= monthLen[c.mon] + ((c.mon == 1 && leap) ? 1 : 0);
+#ifndef C35_SHOW_FINDINGS      // (spec: defines=["C35_SHOW_FINDINGS"] makes the check report the excluded class as a violation)
+        vf_assume(dayExists);
+#endif
         memset(&known.tm, 0, sizeof(known.tm));
         known.tm.tm_year = (int)(c.year - 1900); known.tm.tm_mon = c.mon; known.tm.tm_mday = (int)c.mday;
         known.tm.tm_hour = (int)c.hour; known.tm.tm_min = (int)c.min; known.tm.tm_sec = (int)c.sec;
@@ -228,6 +232,7 @@ static void checkParse(const unsigned char *s, const unsigned n)
     const bool accepted = vf_concretize(got != -1) != 0;        // one path per outcome (keeps the vf_reach labels concrete)
     if (r.inForm && accepted) {
         vf_assert(r.denotes, "an accepted date in IMF-fixdate, RFC 850 or asctime form denotes a time (hour <= 23, minute <= 59, second <= 60, day 1..31)");
+        vf_assert(dayExists, "an accepted date in IMF-fixdate, RFC 850 or asctime form names a day the month has");
         vf_assert(got == known.t, "an accepted date in IMF-fixdate, RFC 850 or asctime form yields the time it denotes");
         vf_reach("accepted");
     } else if (accepted)
